@@ -47,6 +47,36 @@ func divergence(pt *Point) []Mismatch {
 	return ms
 }
 
+// instability reports observations that changed when looked at again (proto.Obs.Unstable)
+// and, for lp.OrderModes, observations that depend on the order in which the accessors ran.
+func instability(lp *LabProp, pt *Point) []Mismatch {
+	var ms []Mismatch
+	var keys []string
+	for k := range pt.Obs {
+		keys = append(keys, k)
+	}
+	sort.Strings(keys)
+	for _, k := range keys {
+		if o := pt.Obs[k]; o.Unstable != "" {
+			ms = append(ms, Mismatch{What: o.Unstable + " [" + k + "]", Variant: strings.SplitN(k, "/", 2)[0], Mode: memoMode})
+		}
+	}
+	for _, v := range lp.Variants {
+		for _, m := range lp.OrderModes {
+			tf := m
+			tf.TreeFirst = true
+			a, b := obsOf(pt, v.Name, m), obsOf(pt, v.Name, tf)
+			if a == nil || b == nil {
+				continue
+			}
+			if d := obsDiff(b, a); d != "" {
+				ms = append(ms, Mismatch{What: "calling SprintSyntaxTree() and AST() before Tokens() and Execute() changes what is observed (tree accessors first vs last): " + d, Variant: v.Name, Mode: tf})
+			}
+		}
+	}
+	return ms
+}
+
 func sortedKeysF(m map[string]float64) []string {
 	var ks []string
 	for k := range m {
@@ -75,6 +105,12 @@ func modeKey(m proto.Mode) string {
 	}
 	if m.U != "" {
 		sb.WriteString("," + m.U)
+	}
+	if m.TreeFirst {
+		sb.WriteString(",treefirst")
+	}
+	if m.RawPrint {
+		sb.WriteString(",rawprint")
 	}
 	if m.Pretty {
 		sb.WriteString(",pretty")
@@ -109,12 +145,18 @@ type LabProp struct {
 	// equal the fresh observation of the same mode: the property quantifies over all inputs,
 	// also those given to a parser that has parsed something else before.
 	ReuseModes []proto.Mode
+	// ReuseVariants: the option sets whose parsers are reused (default: the first variant)
+	ReuseVariants []lab.Variant
 	// Retry: after a rejected Parse(entry) call Parse(other entry) again WITHOUT Reset (a
 	// program trying another start rule on the same buffer) and require verdict, tokens, trace
 	// and tree of that second call to equal a fresh parse of the other entry. RetryModes lists
 	// the modes; with two modes the second calls are also compared with each other including
 	// the error token (memo vs DisableMemoize).
 	RetryModes []proto.Mode
+	// OrderModes: points observed in one of these modes are also observed with the tree
+	// accessors called BEFORE Tokens() and Execute(); accessors only read, so both orders must
+	// observe the same (a metamorphic relation; no reference involved).
+	OrderModes []proto.Mode
 	// NativeFuzz: in the thorough tier, additionally run a coverage-guided `go test -fuzz`
 	// campaign of this many seconds over (grammar, entry, input) for a fresh batch of grammars,
 	// with the reference interpreter as the oracle inside the fuzz target.
@@ -145,7 +187,7 @@ var labProps = map[string]*LabProp{}
 func refBudget(c *drv.Ctx) int { return c.Pick(200000, 400000) }
 
 // memoFreeBudget gates requests to memo-free parsers by the reference step count.
-func memoFreeBudget(c *drv.Ctx) int { return c.Pick(20000, 200000) }
+func memoFreeBudget(c *drv.Ctx) int { return c.Pick(60000, 200000) }
 
 func computeRefs(c *drv.Ctx, cases []*lab.Case, budget int, entries func(cs *lab.Case) []int) []*Point {
 	var pts []*Point
@@ -205,6 +247,18 @@ func runPoints(c *drv.Ctx, lp *LabProp, l *lab.Lab, pts []*Point) {
 			if len(modes) == 0 {
 				continue
 			}
+			if !v.NoAST {
+				for _, om := range lp.OrderModes {
+					for _, m := range modes {
+						if m == om {
+							tf := om
+							tf.TreeFirst = true
+							modes = append(modes[:len(modes):len(modes)], tf)
+							break
+						}
+					}
+				}
+			}
 			reqs = append(reqs, proto.Req{Kind: "run", Pkg: name, Entry: pt.Entry, Input: proto.QStr(pt.Input), Modes: modes})
 			refs = append(refs, reqRef{pt, v, modes})
 		}
@@ -239,6 +293,13 @@ func runPoints(c *drv.Ctx, lp *LabProp, l *lab.Lab, pts []*Point) {
 func toksOf(ts []proto.Tok) string {
 	var sb strings.Builder
 	for i, t := range ts {
+		if len(ts) > 48 && i == 20 {
+			// long lists: the first and the last twenty
+			fmt.Fprintf(&sb, " ... (%d more) ...", len(ts)-40)
+		}
+		if len(ts) > 48 && i >= 20 && i < len(ts)-20 {
+			continue
+		}
 		if i > 0 {
 			sb.WriteByte(' ')
 		}
@@ -358,7 +419,7 @@ func runLabProp(c *drv.Ctx, lp *LabProp) error {
 			for range pt.Died {
 				died++
 			}
-			ms := append(divergence(pt), lp.Judge(c, pt, l)...)
+			ms := append(append(divergence(pt), instability(lp, pt)...), lp.Judge(c, pt, l)...)
 			if len(pt.Obs) > 0 && len(pt.Input) < 200 {
 				c.Stats.Fallback(pt.sample(nil))
 			}
@@ -490,7 +551,7 @@ func evalLabCases(c *drv.Ctx, lp *LabProp, cands []*LabReplay) [][]Mismatch {
 		if pt.Ref.Budget {
 			continue
 		}
-		out[i] = append(divergence(pt), lp.Judge(c, pt, l)...)
+		out[i] = append(append(divergence(pt), instability(lp, pt)...), lp.Judge(c, pt, l)...)
 	}
 	return out
 }
@@ -533,7 +594,19 @@ var _ = gram.KSeq
 // reuseCheck runs the points of every grammar on one long-lived instance per mode and
 // compares each step with the fresh observation.
 func reuseCheck(c *drv.Ctx, lp *LabProp, l *lab.Lab, cases []*lab.Case, pts []*Point) *drv.Violation {
-	v := lp.Variants[0]
+	vs := lp.ReuseVariants
+	if len(vs) == 0 {
+		vs = lp.Variants[:1]
+	}
+	for _, v := range vs {
+		if viol := reuseCheckVariant(c, lp, l, cases, pts, v); viol != nil {
+			return viol
+		}
+	}
+	return nil
+}
+
+func reuseCheckVariant(c *drv.Ctx, lp *LabProp, l *lab.Lab, cases []*lab.Case, pts []*Point, v lab.Variant) *drv.Violation {
 	byCase := map[int][]*Point{}
 	for _, pt := range pts {
 		if !pt.Ref.Budget && len(pt.Input) <= 400 {
@@ -588,7 +661,7 @@ func reuseCheck(c *drv.Ctx, lp *LabProp, l *lab.Lab, cases []*lab.Case, pts []*P
 				for _, p := range r.pts[:si+1] {
 					steps = append(steps, proto.Step{Entry: p.Entry, Input: proto.QStr(p.Input)})
 				}
-				ev := &histEval{what: fmt.Sprintf("step %d (entry %s, input %q) on a reused instance [%s] differs from a fresh parser: %s", si, r.cs.G.Rules[pt.Entry].Name, pt.Input, modeKey(r.mode), d), mode: r.mode, step: si}
+				ev := &histEval{what: fmt.Sprintf("step %d (entry %s, input %q) on a reused instance [%s] differs from a fresh parser: %s", si, r.cs.G.Rules[pt.Entry].Name, pt.Input, modeKey(r.mode), d), mode: r.mode, step: si, variant: v.Name}
 				return shrinkHist(c, lp.ID, r.cs, steps, ev)
 			}
 		}
